@@ -87,6 +87,29 @@ pub fn seeds() -> Vec<Seed> {
             }
         }
     }
+    // XBin files that carry their optional blocks: custom palette, custom 8x8 / 8x14 / 8x16 font, two fonts (512-character mode)
+    for (k, fh, two, pal) in [(4u64, 8u8, false, true), (5, 16, true, false), (6, 14, false, false), (7, 16, true, true)] {
+        let mut b = doc(8, 3, 40 + k);
+        let glyphs: Vec<u8> = (0..256usize * fh as usize).map(|i| (i * 7 + k as usize) as u8).collect();
+        b.set_font(0, BitFont::create_8(format!("F{k}"), 8, fh, &glyphs));
+        if two {
+            b.set_font(1, BitFont::create_8(format!("G{k}"), 8, fh, &glyphs.iter().map(|x| !x).collect::<Vec<u8>>()));
+            b.font_mode = icy_engine::FontMode::FixedSize;
+            let mut c = b.layers[0].get_char((1, 1));
+            c.ch = 'B';
+            c.attribute.set_font_page(1);
+            b.layers[0].set_char((1, 1), c);
+        }
+        if pal { b.palette.set_color(3, icy_engine::Color::new(1, 2, 3)); }
+        let mut o = SaveOptions::new();
+        o.compress = k % 2 == 0;
+        o.save_sauce = k == 7;
+        match guard(|| b.to_bytes("xb", &o)) {
+            Ok(Ok(bytes)) => res.push(Seed { name: format!("xb-v{k}"), ext: "xb".into(), bytes }),
+            Ok(Err(e)) => { if std::env::var("VERIF_DEBUG").is_ok() { eprintln!("seed xb-v{k}: {e}"); } }
+            Err(p) => { if std::env::var("VERIF_DEBUG").is_ok() { eprintln!("seed xb-v{k}: panic {}", panic_site(&p)); } }
+        }
+    }
     // the PETSCII writer is not implemented: hand-written .seq content
     res.push(Seed { name: "seq-hand".into(), ext: "seq".into(), bytes: b"\x93\x05HELLO\x0d\x12REV\x92 \x1c\x9f\x11\x1d\x9d\x91\x13\x0e\x8e\x14A".to_vec() });
     // fonts and TheDraw fonts
@@ -227,12 +250,13 @@ pub fn cases(seed: u64, thorough: bool, faults: &[Value]) -> Vec<LCase> {
             let mut b = s.bytes.clone();
             match f["kind"].as_str().unwrap_or("") {
                 "trunc" => { let at = f["at"].as_u64().unwrap_or(0) as usize; if at <= n { b.truncate(at); } else { continue; } }
-                "set" => {
+                k @ ("set" | "set+trunc") => {
                     let off = f["off"].as_u64().unwrap_or(0) as usize;
                     let wd = f["width"].as_u64().unwrap_or(1) as usize;
                     let val = f["val"].as_u64().unwrap_or(0);
                     if off + wd > n { continue; }
                     for i in 0..wd { b[off + i] = ((val >> (8 * i)) & 0xFF) as u8; }
+                    if k == "set+trunc" { let at = f["at"].as_u64().unwrap_or(0) as usize; if at <= n { b.truncate(at); } else { continue; } }
                 }
                 _ => continue,
             }
